@@ -199,8 +199,11 @@ def _run_sub_shard(check: Check, sub: SubCheck, tier: str, seed: int, shard: int
                 fn()
             except _Found:
                 pass
-            except hypothesis.errors.Flaky as e:  # non-deterministic case: harness problem
-                stats["errors"].append("Flaky: " + str(e)[:500])
+            except hypothesis.errors.Flaky as e:
+                # expected once the shrink budget is spent (later candidates are short-circuited); a genuine
+                # non-deterministic case is caught below by the re-execution from JSON
+                if best["case"] is None:
+                    stats["errors"].append("Flaky: " + str(e)[:500])
             except BaseException as e:  # noqa: BLE001
                 if best["case"] is None:
                     stats["errors"].append("".join(traceback.format_exception(e))[-3000:])
